@@ -608,38 +608,6 @@ fn stream_pairs(thorough: bool, seed: u64, out: &mut dyn Write) {
     let n = if thorough { 300_000 } else { 50_000 };
     for i in 0..n {
         let mut s = gen_shape(&mut r, false);
-        // a corruption applied to the structure (so that rejected inputs are paired too)
-        if i % 4 == 0 {
-            let bad: &[&[u8]] = &[b"abcd", b"a.b", b"toolongxx", b"", b"12", b"\xff"];
-            match r.below(5) {
-                0 => s.variants.push(r.pick(bad).to_vec()),
-                1 => {
-                    if let Some(u) = &mut s.u {
-                        u.0.push(r.pick(bad).to_vec())
-                    }
-                }
-                2 => {
-                    if let Some(u) = &mut s.u {
-                        if let Some(k) = u.1.last_mut() {
-                            k.1.push(r.pick(bad).to_vec())
-                        }
-                    }
-                }
-                3 => {
-                    if let Some(t) = &mut s.t {
-                        if let Some(k) = t.1.last_mut() {
-                            k.1.push(r.pick(bad).to_vec())
-                        }
-                    }
-                }
-                _ => {
-                    if let Some(x) = &mut s.x {
-                        x.push(r.pick(bad).to_vec())
-                    }
-                }
-            }
-        }
-        let a = render(&mut r, &s.tokens(), 0);
         let mut t = s.clone();
         // transformations: order / repetition of variants and attributes, order of keywords and
         // tfields (keys are distinct), relative order of -u- and -t-, case, separators
@@ -664,6 +632,54 @@ fn stream_pairs(thorough: bool, seed: u64, out: &mut dyn Write) {
         if r.chance(1, 2) {
             t.u_first = !t.u_first;
         }
+        // a corruption applied to BOTH spellings at the same structural place, after the re-ordering (so that
+        // rejected inputs are paired too).  It is placed where it is not itself one of the re-ordered parts: at
+        // the end of the variant / attribute group, or (tokens that are not type-shaped only) at the end of the
+        // keyword / tfield section, or among the private-use subtags.
+        if i % 4 == 0 {
+            let bad: &[&[u8]] = &[b"abcd", b"a.b", b"toolongxx", b"", b"12", b"\xff"];
+            let bad_nt: &[&[u8]] = &[b"a.b", b"toolongxx", b"", b"12", b"\xff"];
+            match r.below(5) {
+                0 => {
+                    let x = r.pick(bad).to_vec();
+                    s.variants.push(x.clone());
+                    t.variants.push(x);
+                }
+                1 => {
+                    let x = r.pick(bad).to_vec();
+                    if let (Some(u), Some(u2)) = (&mut s.u, &mut t.u) {
+                        u.0.push(x.clone());
+                        u2.0.push(x);
+                    }
+                }
+                2 => {
+                    let x = r.pick(bad_nt).to_vec();
+                    if let (Some(u), Some(u2)) = (&mut s.u, &mut t.u) {
+                        if let (Some(k), Some(k2)) = (u.1.last_mut(), u2.1.last_mut()) {
+                            k.1.push(x.clone());
+                            k2.1.push(x);
+                        }
+                    }
+                }
+                3 => {
+                    let x = r.pick(bad_nt).to_vec();
+                    if let (Some(tt), Some(tt2)) = (&mut s.t, &mut t.t) {
+                        if let (Some(k), Some(k2)) = (tt.1.last_mut(), tt2.1.last_mut()) {
+                            k.1.push(x.clone());
+                            k2.1.push(x);
+                        }
+                    }
+                }
+                _ => {
+                    let x = r.pick(bad).to_vec();
+                    if let (Some(p), Some(p2)) = (&mut s.x, &mut t.x) {
+                        p.push(x.clone());
+                        p2.push(x);
+                    }
+                }
+            }
+        }
+        let a = render(&mut r, &s.tokens(), 0);
         let b = render(&mut r, &t.tokens(), 2);
         writeln!(out, "pair {} {}", hex(&a), hex(&b)).unwrap();
     }
